@@ -4,7 +4,7 @@ From Coq Require Import List Arith NArith ZArith Lia Bool Permutation.
 From Coq Require Import ZifyBool ZifyNat ZifyN.
 From PB Require Import Base.PBytes Wire.WireModel Msg.MsgSchema Msg.MsgValue Msg.MsgUtf8 Msg.MsgEnc Msg.MsgDec Msg.MsgValid Msg.MsgAssocP.
 From PB Require Import Json.RtSchema Json.JsonMsgModel Json.JsonMsgValid Json.JsonWktValid.
-From PB Require Import Text.TextMsgModel Text.TextMsgValid Text.TextMsgScalarP Text.TextMsgP Json.JsonMsgP.
+From PB Require Import Text.TextMsgModel Text.TextMsgValid Text.TextMsgScalarP Text.TextMsgP Json.JsonMsgP Json.JsonFieldMaskP.
 Ltac Zify.zify_post_hook ::= Z.div_mod_to_equations.
 Import ListNotations.
 Open Scope N_scope.
@@ -93,6 +93,7 @@ Section W.
     | 5 => struct_shape nm fps = true
     | 6 => listvalue_shape nm fps = true
     | 7 => value_shape nm fps = true
+    | 8 => fieldmask_shape fps = true
     | 9 => fps = []
     | _ => False
     end.
@@ -106,7 +107,7 @@ Section W.
   Qed.
 
   Lemma core2_cases tid : (tid < length S)%nat ->
-    wkt_of nm tid = 0 \/ wkt_of nm tid = 2 \/ wkt_of nm tid = 3 \/ wkt_of nm tid = 4 \/ wkt_of nm tid = 5 \/ wkt_of nm tid = 6 \/ wkt_of nm tid = 7 \/ wkt_of nm tid = 9.
+    wkt_of nm tid = 0 \/ wkt_of nm tid = 2 \/ wkt_of nm tid = 3 \/ wkt_of nm tid = 4 \/ wkt_of nm tid = 5 \/ wkt_of nm tid = 6 \/ wkt_of nm tid = 7 \/ wkt_of nm tid = 8 \/ wkt_of nm tid = 9.
   Proof.
     intros Hlt. destruct (core2_at tid Hlt) as [_ H].
     destruct (wkt_of nm tid) as [|p]; [auto|].
@@ -282,6 +283,62 @@ Section W.
       cbn [msg_sorted fst] in Hs. destruct Hs as (_ & Hl1 & Hl2 & _). lia.
   Qed.
 
+  (* ---- FieldMask ---- *)
+  Lemma fieldmask_rt tid fs :
+    (tid < length S)%nat -> wkt_of nm tid = 8 ->
+    msg_keys_sorted 0 fs = true -> forallb (jvalid_chunk nm recv (rt_fields S nm tid)) fs = true ->
+    forallb (fun x => match x with VS (SBy p) => fm_path_ok p | _ => false end) (msg_fget fs 1) = true ->
+    exists j, json_fieldmask fs = JOk j /\ is_jnull j = false /\ dec_fieldmask j = JOk (VMsg (map sp fs) []).
+  Proof.
+    intros Hlt Hw Hs Hc Hpaths. destruct (core2_at tid Hlt) as [_ Hshape]. rewrite Hw in Hshape.
+    apply msg_keys_sorted_spec in Hs.
+    pose proof (jchunks_of S nm recv tid fs Hc) as Hchunks.
+    unfold fieldmask_shape in Hshape.
+    destruct (rt_fields S nm tid) as [|[fd fn] [|? ?]]; try discriminate.
+    apply andb_prop in Hshape. destruct Hshape as [Hshape Hk]. apply andb_prop in Hshape. destruct Hshape as [N1 _].
+    apply N.eqb_eq in N1.
+    (* the paths as byte strings *)
+    assert (Hps : exists ps, msg_fget fs 1 = map (fun p => VS (SBy p)) ps /\ Forall (fun p => fm_path_ok p = true) ps).
+    { revert Hpaths. generalize (msg_fget fs 1). induction l as [|x l IH]; intros H.
+      - exists []. split; [reflexivity|constructor].
+      - cbn [forallb] in H. apply andb_prop in H. destruct H as [Hx Hl]. destruct (IH Hl) as (ps & -> & Hall).
+        destruct x as [[| | |p]| |]; try discriminate. exists (p :: ps). split; [reflexivity|]. constructor; assumption. }
+    destruct Hps as (ps & Eget & Hall).
+    assert (Hfs : map sp fs = match ps with [] => [] | _ => [(1, map (fun p => VS (SBy p)) ps)] end).
+    { destruct (single_field_fs fd fn fs N1 Hs Hchunks) as [->|(vs & -> & Hv)].
+      - cbn [msg_fget] in Eget. destruct ps; [reflexivity|discriminate].
+      - cbn [msg_fget N.eqb Pos.eqb] in Eget. subst vs.
+        pose proof (jvalid_field_nonempty _ _ _ _ _ Hv) as Hne.
+        assert (Hstrip : map strip_unknown (map (fun p => VS (SBy p)) ps) = map (fun p => VS (SBy p)) ps)
+          by (rewrite map_map; apply map_ext; reflexivity).
+        unfold sp. cbn [map fst snd]. rewrite Hstrip. destruct ps; [cbn in Hne; congruence|reflexivity]. }
+    unfold json_fieldmask. rewrite Eget.
+    assert (Hm : jmapM (fun v => match v with
+                               | VS (SBy p) => if fm_path_ok p then JOk (fm_camel p) else JErr EFieldMask
+                               | _ => JErr ESchema end) (map (fun p => VS (SBy p)) ps) = JOk (map fm_camel ps)).
+    { clear Eget Hfs. induction Hall as [|p ps Hp Hall IH]; [reflexivity|].
+      cbn [map jmapM]. rewrite Hp. cbn [jbind]. rewrite IH. reflexivity. }
+    rewrite Hm. cbn [jbind]. eexists. split; [reflexivity|]. split; [reflexivity|].
+    rewrite Hfs. unfold dec_fieldmask.
+    destruct ps as [|p0 ps0]; [reflexivity|].
+    set (ps := p0 :: ps0) in *.
+    assert (Hcs : Forall (fun a => forall c, In c a -> b2n c <> 44) (map fm_camel ps) /\ Forall (fun a => a <> []) (map fm_camel ps)).
+    { clear Hm Hfs Eget. induction Hall as [|p ps' Hp Hall IH]; [split; constructor|].
+      destruct (fm_path_facts p Hp) as (Hv & _ & Hne). destruct IH as [I1 I2].
+      split; constructor; try assumption. apply fm_camel_no_comma, Hv. }
+    destruct Hcs as [Hnc Hne].
+    pose proof (join_nonempty (map fm_camel ps) ltac:(subst ps; discriminate) Hne) as Hjne.
+    destruct (join_comma (map fm_camel ps)) as [|c0 s0] eqn:Ej; [congruence|]. rewrite <- Ej.
+    rewrite (split_join (map fm_camel ps) ltac:(subst ps; discriminate) Hnc).
+    assert (Hd : jmapM (fun p => if existsb (fun c => b2n c =? 95) p || negb (fullname_valid (fm_snake p))
+                                 then JErr EDecode else JOk (VS (SBy (fm_snake p)))) (map fm_camel ps)
+                 = JOk (map (fun p => VS (SBy p)) ps)).
+    { clear Hm Hfs Eget Hnc Hne Hjne Ej. induction Hall as [|p ps' Hp Hall IH]; [reflexivity|].
+      destruct (fm_path_facts p Hp) as (Hv & Hsn & _).
+      cbn [map jmapM]. rewrite fm_camel_no_underscore, Hsn, Hv. cbn [negb orb jbind]. rewrite IH. reflexivity. }
+    rewrite Hd. reflexivity.
+  Qed.
+
   (* ---- Struct and ListValue ---- *)
   Lemma field1_rt tid fs :
     (tid < length S)%nat -> wkt_of nm tid = 5 \/ wkt_of nm tid = 6 ->
@@ -454,7 +511,7 @@ Section WMain.
     apply andb_prop in Hb. destruct Hb as [Hb Hf11]. apply andb_prop in Hb. destruct Hb as [Hb Ho].
     apply andb_prop in Hb. destruct Hb as [Hs Hc].
     unfold json_msg_body, of_json_body. change (mn_wkt (nm_msg nm tid)) with (wkt_of nm tid) in *.
-    destruct (core2_cases S nm Hcore2 recv rect recd IH tid Hlt) as [E|[E|[E|[E|[E|[E|[E|E]]]]]]]; rewrite E in *; cbn iota.
+    destruct (core2_cases S nm Hcore2 recv rect recd IH tid Hlt) as [E|[E|[E|[E|[E|[E|[E|[E|E]]]]]]]]; rewrite E in *; cbn iota.
     - (* ordinary *)
       change (strip_unknown (VMsg fs unk)) with (VMsg (map sp fs) []).
       destruct (json_ordinary_rt cd Hb64 o S nm Hschema recv rect recd Hrec1 tid fs Hlt) as (ms & Hm & Hd); try assumption.
@@ -499,6 +556,11 @@ Section WMain.
       destruct (value_rt cd Hb64 o S nm Hschema Hcore2 recv rect recd IH tid (VMsg fs unk) Hlt E Hb0 Hextra) as (j & Hj & Hd).
       exists j. split; [exact Hj|]. split; [|exact Hd].
       split; [reflexivity|]. split; discriminate.
+    - (* FieldMask *)
+      change (strip_unknown (VMsg fs unk)) with (VMsg (map sp fs) []).
+      destruct (fieldmask_rt S nm lim Hcore2 recv rect recd IH tid fs Hlt E Hs Hc Hrange) as (j & Hj & Hnn & Hd).
+      exists j. split; [exact Hj|]. split; [|exact Hd].
+      split; [rewrite Hnn; discriminate|]. split; discriminate.
     - (* Empty *)
       change (strip_unknown (VMsg fs unk)) with (VMsg (map sp fs) []).
       destruct (json_ordinary_rt cd Hb64 o S nm Hschema recv rect recd Hrec1 tid fs Hlt) as (ms & Hm & Hd); try assumption.
